@@ -8,6 +8,7 @@ import AmrK.WritersChef
 import AmrK.Scan
 import AmrK.TasteAll
 import AmrK.Grid
+import AmrK.PointModel
 /-! `amrk-driver`: one JSON object per line in, one JSON object per line out.
     Executable definitions of the model only (no Mathlib behind any import). -/
 open Lean
@@ -119,6 +120,28 @@ def opCover (j : Json) : Except String Json := do
   let shape ← natList (← j.getObjVal? "shape")
   let res := (Grid.cells shape).map fun p => Grid.coverAt levels L p
   return Json.mkObj [("vals", toJson (res.map fun r => optJ (r.map (·.1)))), ("lvls", toJson (res.map fun r => optJ (r.map (·.2))))]
+
+/-! ### point query -/
+def ratList (j : Json) : Except String (List Rat) := do (← j.getArr?).toList.mapM ratOfJson
+
+open Point in
+def opPoint (j : Json) : Except String Json := do
+  let g ← ratList (← j.getObjVal? "geo_low")
+  let p ← ratList (← j.getObjVal? "point")
+  let lv ← (← j.getObjVal? "levels").getArr?
+  let levels ← lv.toList.mapM fun l => do
+    let dx ← ratList (← l.getObjVal? "dx")
+    let bs ← (← l.getObjVal? "boxes").getArr?
+    let boxes ← bs.toList.mapM fun b => do
+      (← b.getArr?).toList.mapM fun d => do
+        let a ← d.getArr?
+        return (← ratOfJson a[0]!, ← ratOfJson a[1]!)
+    let lo ← (← (← l.getObjVal? "idx_lo").getArr?).toList.mapM fun b => do (← b.getArr?).toList.mapM (·.getInt?)
+    return ({ dx, boxes, idxLo := lo } : PLevel)
+  match query g levels p with
+  | .refused why => return Json.mkObj [("status", "refused"), ("why", toJson why)]
+  | .case2 => return Json.mkObj [("status", "case2")]
+  | .case1 l b loc => return Json.mkObj [("status", "case1"), ("level", toJson l), ("box", toJson b), ("local", toJson (loc.map ratJ))]
 
 /-! ### mandoline column -/
 open Column in
@@ -247,6 +270,7 @@ partial def loop (h : IO.FS.Stream) (out : IO.FS.Stream) (files : Std.HashMap St
         | "taste" => opTaste j
         | "cellh" => opCellH j
         | "cover" => opCover j
+        | "point" => opPoint j
         | "taste_plt" => opTastePlt files j
         | "column" => opColumn j
         | "pestle" => opPestle j
